@@ -112,6 +112,11 @@ func (bq *Queue[Q]) Run() {
 			if b == bq.nilQ {
 				break
 			}
+			// The chain has moved forward since its height was read and the
+			// slot is taken by an element from the new window already.
+			if b.GetIndex() > h+1 {
+				continue
+			}
 
 			err := bq.chain.AddItem(b)
 			if err != nil {
